@@ -450,7 +450,7 @@ func driveProc(p *Plan, shard int, w *Writer, t *codec.Table) {
 		if sess%p.Shards != shard {
 			continue
 		}
-		isErrCase := inv.In2 == "mismatch" || inv.In1 != "ok" || inv.In2 != "ok" || inv.Version || inv.Gdd || inv.Nargs == 0 || inv.Nargs >= 3 || inv.F == "bogus" || inv.T == "bogus" || inv.Setkeys == "bad" || (inv.P && inv.T != "")
+		isErrCase := inv.Pair == 9 || inv.In2 == "mismatch" || inv.In1 != "ok" || inv.In2 != "ok" || inv.Version || inv.Gdd || inv.Nargs == 0 || inv.Nargs >= 3 || inv.F == "bogus" || inv.T == "bogus" || inv.Setkeys == "bad" || (inv.P && inv.T != "")
 		if !isErrCase && !keep(p.Seed, frac, "inv", ii) {
 			continue
 		}
